@@ -2,7 +2,9 @@
 (Position::uci / parse_uci) is in c16 'text' queries when the std::string model applies; FEN text is not encodable."""
 import re, os
 from pipeline import Query, Broken, VERIF
-import report
+import report, layout, material
+from checks.search_common import proto_stub
+from checks.make_common import unwindset as mc_unwind
 
 TUS = ['types', 'movegen', 'position']
 ENTRIES = ['_ZN6engine11create_moveENS_6SquareES0_', '_ZN6engine16create_promotionENS_6SquareES0_NS_9PieceKindE', '_ZN6engine15create_castlingENS_8CastlingE',
@@ -10,6 +12,109 @@ ENTRIES = ['_ZN6engine11create_moveENS_6SquareES0_', '_ZN6engine16create_promoti
            '_ZN6engine15create_moveinfoENS_9PieceKindENS_8CastlingENS_6SquareEbh', '_ZN6engine14captured_pieceEj', '_ZN6engine13last_castlingEj',
            '_ZN6engine21last_enpassant_squareEj', '_ZN6engine9enpassantEj', '_ZN6engine17half_move_counterEj']
 HARN = ['h_move_roundtrip', 'h_promotion_roundtrip', 'h_castling_roundtrip', 'h_move_injective', 'h_moveinfo_roundtrip']
+
+FEN_CT = '_ZN6engine8PositionC2ENSt7__cxx1112basic_stringIcSt11char_traitsIcESaIcEEE'; FEN_WR = '_ZNK6engine8Position3fenB5cxx11Ev'
+UCI_WR = '_ZNK6engine8Position3uciB5cxx11Ej'; UCI_RD = '_ZN6engine8Position9parse_uciERKNSt7__cxx1112basic_stringIcSt11char_traitsIcESaIcEEE'
+STR = r'_ZNSt7__cxx1112basic_stringIcSt11char_traitsIcESaIcEE'
+FEN_LIB = {   # library surface of the two functions -> model bodies (parameters are v_0, v_1, ... as in the generated prototypes)
+    'os_cstr': (r'^_ZStlsISt11char_traitsIcEERSt13basic_ostreamIcT_ES5_PKc$', 'for (int i = 0; i < 3; i++) { if (v_1[i] == 0) break; put(v_1[i]); } return v_0;'),
+    'os_char': (r'^_ZStlsISt11char_traitsIcEERSt13basic_ostreamIcT_ES5_c$', 'put(v_1); return v_0;'),
+    'os_uint': (r'^_ZNSolsEj$', 'put((uint8_t)(0xF0 + nnum)); if (nnum < 4) NUMS[nnum] = (int64_t)v_1; nnum++; return v_0;'),
+    'os_int': (r'^_ZNSolsEi$', 'put((uint8_t)(0xF0 + nnum)); if (nnum < 4) NUMS[nnum] = (int64_t)(int32_t)v_1; nnum++; return v_0;'),
+    'oss_ctor': (r'^_ZNSt7__cxx1119basic_ostringstreamIcSt11char_traitsIcESaIcEEC1Ev$', 'tlen = 0; nnum = 0; overflow = 0; ntok = 0; in_tok = 0;'),
+    'oss_dtor': (r'^_ZNSt7__cxx1119basic_ostringstreamIcSt11char_traitsIcESaIcEED1Ev$', ''),
+    'oss_str': (r'^_ZNKRSt7__cxx1119basic_ostringstreamIcSt11char_traitsIcESaIcEE3strEv$', 'v_0->f0.f0 = &TEXT[0]; v_0->f1 = tlen < TMAX ? tlen : TMAX;'),
+    'str_dtor': ('^' + STR + 'D2Ev$', ''), 'str_ctor': ('^' + STR + 'C2Ev$', 'v_0->f0.f0 = &TEXT[0]; v_0->f1 = 0;'),
+    'str_copy': ('^' + STR + r'C2ERKS4_$', 'v_0->f0.f0 = v_1->f0.f0; v_0->f1 = v_1->f1;'),
+    'str_cstr': ('^' + STR + r'C2IS3_EEPKcRKS3_$', 'uint64_t n = 0; for (int i = 0; i < 16; i++) { if (v_1[i] == 0) break; n++; } v_0->f0.f0 = v_1; v_0->f1 = n;'),
+    'str_begin': ('^' + STR + '5beginEv$', 'return v_0->f0.f0;'), 'str_end': ('^' + STR + '3endEv$', 'return v_0->f0.f0 + v_0->f1;'),
+    'str_idx': ('^' + STR + 'ixEm$', 'return v_0->f0.f0 + v_1;'), 'str_cidx': (r'^_ZNKSt7__cxx1112basic_stringIcSt11char_traitsIcESaIcEEixEm$', 'return v_0->f0.f0 + v_1;'),
+    'alloc_c': (r'^_ZNSaIcEC2Ev$', ''), 'alloc_d': (r'^_ZNSaIcED2Ev$', ''),
+    'str_eq': (r'^_ZSteqIcSt11char_traitsIcESaIcEEbRKNSt7__cxx1112basic_stringIT_T0_T1_EEPKS5_$', 'uint64_t n = 0; for (int i = 0; i < 3; i++) { if (v_1[i] == 0) break; n++; } if (v_0->f1 != n) return 0; for (uint64_t i = 0; i < 3; i++) if (i < n && v_0->f0.f0[i] != v_1[i]) return 0; return 1;'),
+    'iss_ctor': (r'^_ZNSt7__cxx1119basic_istringstreamIcSt11char_traitsIcESaIcEEC1ERKNS_12basic_stringIcS2_S3_EESt13_Ios_Openmode$', 'RD = v_1->f0.f0; rtok = 0;'),
+    'iss_dtor': (r'^_ZNSt7__cxx1119basic_istringstreamIcSt11char_traitsIcESaIcEED1Ev$', ''),
+    'is_str': (r'^_ZStrsIcSt11char_traitsIcESaIcEERSt13basic_istreamIT_T0_ES7_RNSt7__cxx1112basic_stringIS4_S5_T1_EE$', 'uint32_t st, ln; next_token(&st, &ln); v_1->f0.f0 = (uint8_t *)&RD[st]; v_1->f1 = ln; return v_0;'),
+    'is_int': (r'^_ZNSirsERi$', 'uint32_t st, ln; next_token(&st, &ln); uint8_t c = ln == 1 ? RD[st] : 0; *v_1 = (c >= 0xF0 && c < 0xF4) ? (uint32_t)NUMS[c - 0xF0] : 0; return v_0;'),
+    'map_ctor': (r'^_ZNSt3mapIcN6engine5PieceESt4lessIcESaISt4pairIKcS1_EEEC2ESt16initializer_listIS6_ERKS3_RKS7_$', 'MAP_INIT = v_1; map_n = v_2;'),
+    'map_idx': (r'^_ZNSt3mapIcN6engine5PieceESt4lessIcESaISt4pairIKcS1_EEEixERS5_$', 'NO_PIECE_CELL = 0; uint32_t *r = &NO_PIECE_CELL; for (uint64_t i = 0; i < 12; i++) if (i < map_n && MAP_INIT[i].f0 == *v_1) r = &MAP_INIT[i].f1; return r;'),
+    'map_dtor': (r'^_ZNSt3mapIcN6engine5PieceESt4lessIcESaISt4pairIKcS1_EEED2Ev$', ''),
+    'palloc_c': (r'^_ZNSaISt4pairIKcN6engine5PieceEEEC2Ev$', ''), 'palloc_d': (r'^_ZNSaISt4pairIKcN6engine5PieceEEED2Ev$', ''),
+    # move text (uci / parse_uci)
+    'str_pluseq': ('^' + STR + 'pLEc$', 'if (v_0->f0.f0 != &UBUF[0]) { for (uint64_t i = 0; i < 8; i++) if (i < v_0->f1) UBUF[i] = v_0->f0.f0[i]; v_0->f0.f0 = &UBUF[0]; } if (v_0->f1 < 8) UBUF[v_0->f1] = v_1; else overflow = 1; v_0->f1++; return v_0;'),
+    'str_move': ('^' + STR + r'C2EOS4_$', 'v_0->f0.f0 = v_1->f0.f0; v_0->f1 = v_1->f1;'),
+    'str_size': (r'^_ZNKSt7__cxx1112basic_stringIcSt11char_traitsIcESaIcEE4sizeEv$', 'return v_0->f1;'),
+    'str_substr': (r'^_ZNKSt7__cxx1112basic_stringIcSt11char_traitsIcESaIcEE6substrEmm$', 'v_0->f0.f0 = v_1->f0.f0; v_0->f1 = 0;'),
+    'str_plus': (r'^_ZStplIcSt11char_traitsIcESaIcEENSt7__cxx1112basic_stringIT_T0_T1_EEPKS5_OS8_$', 'v_0->f0.f0 = v_2->f0.f0; v_0->f1 = 0;'),
+    'rt_err': (r'^_ZNSt13runtime_errorC1ERKNSt7__cxx1112basic_stringIcSt11char_traitsIcESaIcEEE$', ''),
+    'hk_init': (r'^_ZN6engine7HashKey4initERKNS_8PositionE$', ''), 'hk_key': (r'^_ZNK6engine7HashKey7get_keyEv$', 'return nondet_u64();'),
+}
+
+FIXED = {'castle_all': 'r3k2r/8/8/8/8/8/8/R3K2R', 'castle_Kq': 'r3k3/8/8/8/8/8/8/4K2R', 'castle_Qk': '4k2r/8/8/8/8/8/8/R3K3', 'ep': '4k3/8/8/pP6/6pP/8/8/4K3',
+         'mixed': '1n2k1r1/8/2q5/8/8/5B2/8/R3K3'}
+def fixed_placement(board):
+    out = []; rows = board.split('/')
+    for ri, row in enumerate(rows):
+        f = 0
+        for ch in row:
+            if ch.isdigit(): f += int(ch)
+            else: out.append((' PNBRQKpnbrqk'.index(ch), 8 * (7 - ri) + f)); f += 1
+    return out
+
+def build_fen(ctx):
+    names_all = ['h_uci_roundtrip'] + ['h_fen_fixed_' + k for k in FIXED] + ([] if ctx.tier == 'quick' else ['h_fen_rank1', 'h_fen_rank8', 'h_fen_Kk'])
+    names_all = [n for n in names_all if not ctx.only or re.search(ctx.only, n)]
+    if not names_all: return [], []
+    m = ctx.module(['position', 'types', 'zobrist_hash', 'bithacks', 'move_bitboards'], tag='fen')
+    allf = [k[1:] if k.startswith('@') else k for k in m.funcs]
+    layout.field_header(ctx, m, [layout.POSITION_FIELDS], ['position.h'])     # before the cut below: member offsets are taken from the unmodified layout
+    import ll2c
+    pos_t = m.types['%"class.engine::Position"']
+    if isinstance(pos_t.els[-1], ll2c.TArr) and pos_t.els[-1].n == 800:
+        pos_t.els[-1].n = 8     # Position::_history: only entry 0 is written by the reader; CBMC pays for the whole object on every symbolic-index write
+        ctx.notes.append('FEN harness: Position::_history cut to 8 entries in the model (the constructor writes entry 0 only)')
+    S = {}
+    for k, (rx, body) in FEN_LIB.items():
+        got = [f for f in allf if re.search(rx, f)]
+        if len(got) != 1: raise Broken('library surface of the FEN reader/writer changed: %s -> %s' % (rx, got))
+        S[k] = got[0]
+    c, h, info = ctx.translate(m, [FEN_CT, FEN_WR, UCI_WR, UCI_RD], stubs=list(S.values()), out='engfen')
+    header = open(h).read()
+    mm = re.search(r'%s\(struct (\w+) \*v_0, struct (\w+) \*v_1,' % re.escape(S['map_ctor']), header)
+    if not mm: raise Broken('prototype of the std::map<char, Piece> constructor not found')
+    CXA = ['uint8_t *__cxa_allocate_exception(uint64_t v_0) { return &EXC_OBJ[0]; }', 'void __cxa_free_exception(uint8_t *v_0) { }',
+           'void __cxa_throw(uint8_t *v_0, uint8_t *v_1, uint8_t *v_2) { threw = 1; __CPROVER_assume(0); }']
+    glue = CXA + ['#define UCI_WRITE %s' % UCI_WR, '#define UCI_READ %s' % UCI_RD, 'static struct %s *MAP_INIT;' % mm.group(2), '#define FEN_WRITE %s' % FEN_WR, '#define FEN_READ %s' % FEN_CT] + [proto_stub(header, S[k], FEN_LIB[k][1]) for k in FEN_LIB] + ['void _ZN6engine7HashKeyC1Ev(struct S_class_engine__HashKey *v_0) { }']   # C1 is an alias of the (trivial) C2 constructor: external in the translation
+    open(ctx.path('c16_fen_stubs.h'), 'w').write('\n'.join(glue) + '\n')
+    open(ctx.path('eng.h'), 'w').write('#include "engfen.h"\n')
+    H = ['#include "c16_fen.c"']; qn = []
+    for n in names_all:
+        if n == 'h_uci_roundtrip':
+            qn.append((n, [6, 12])); continue
+        if n.startswith('h_fen_fixed_'):
+            pl = fixed_placement(FIXED[n[len('h_fen_fixed_'):]])
+            H.append('void %s(void) { static const uint32_t pcs[] = {%s}; static const uint32_t sqs[] = {%s}; fen_fixed_case(pcs, sqs, %d); }' % (n, ','.join(str(a) for a, b in pl), ','.join(str(b) for a, b in pl), len(pl)))
+            qn.append((n, [6, 12] + [1] * 6)); continue
+        if n.startswith('h_fen_rank'):
+            H.append('void %s(void) { fen_rank_case(%d); }' % (n, int(n[-1]) - 1)); qn.append((n, [6, 12] + [1] * 6)); continue
+        mat = material.parse(n[len('h_fen_'):])
+        H.append('void %s(void) { static const uint32_t mat[] = %s; fen_case(mat, %d, %d); }' % (n, material.cinit(mat), len(mat), max(mat.count(x) for x in set(mat))))
+        qn.append((n, mat))
+    hp = ctx.path('h_c16_fen.c'); open(hp, 'w').write('\n'.join(H) + '\n')
+    D = ['S_USE_BITBOARD_ORACLE']
+    gb = ctx.gotocc('c16fen', [c, hp], D); gbw = ctx.gotocc('c16fenw', [c, hp], D + ['WITNESS'])
+    qs, ws = [], []
+    for n, mat in qn:
+        us = dict(mc_unwind(len(mat)))
+        us.update({S['str_cstr'] + '.0': 17, S['os_cstr'] + '.0': 4, S['str_eq'] + '.0': 4, S['str_eq'] + '.1': 4, S['map_idx'] + '.0': 13})
+        for f in allf:
+            if '__fill_a1' in f or 'fill_n' in f: us[f + '.0'] = 66     # std::fill_n of the 64-square board, 13 counts, 7+2 bitboards: concrete trip counts
+        us.update({'fen_case.0': 49, 'fen_case.1': 65, 'fen_case.2': 7, 'fen_case.3': 14, 'fen_case.4': 14, FEN_CT + '.0': 40, FEN_CT + '.1': 6, FEN_WR + '.0': 9, FEN_WR + '.1': 9,
+              'pos_build.0': 65, 'pos_build.1': len(mat) + 1, 's_king_sq.0': 65, 'fill7.0': 8, 'fen_rank_case.0': 9, 'fen_fixed_case.0': 9, 'h_uci_roundtrip.0': 65, 'h_uci_roundtrip.1': 9, S['str_pluseq'] + '.0': 9, 'roundtrip.0': 49, 'roundtrip.1': 65, 'roundtrip.2': 7, 'roundtrip.3': 14, 'roundtrip.4': 14})
+        smp = {'harness': n, 'placement': ('rank %s: every square empty or any of the 12 pieces (one king each), other ranks empty' % n[-1]) if 'rank' in n else ('fixed placement ' + FIXED[n[len('h_fen_fixed_'):]]) if 'fixed' in n else 'ARBITRARY board (every square any piece), any move of legal shape: move text round trip uci() -> parse_uci()' if 'uci' in n else 'material ' + n[len('h_fen_'):] + ' on symbolic squares', 'side/rights/en-passant/clocks': 'symbolic (half-move clock 0..255, ply 1..2000)', 'entries': 'Position::fen() then Position::Position(std::string) as compiled'}
+        qs.append(Query(n, gb, n, us, timeout=900 if ctx.tier == 'quick' else 2700, sample=smp, max_unwind={'*': 100}))
+        ws.append(Query('w_' + n, gbw, n, us, timeout=900, meta={'of': n}, expect='witness', max_unwind={'*': 100}))
+    return qs, ws
+
 
 def check(ctx):
     m = ctx.module(TUS)
@@ -19,15 +124,34 @@ def check(ctx):
     names = [n for n in HARN if not ctx.only or re.search(ctx.only, n)]
     qs = [Query(n, gb, n, {}, timeout=300, sample={'harness': n, 'fields': 'all values (symbolic)'}) for n in names]
     ws = [Query('w_' + n, gbw, n, {}, timeout=300, meta={'of': n}, expect='witness') for n in names]
-    res = ctx.run_queries(qs + ws, label='c16')
+    fq, fw = build_fen(ctx)
+    res = ctx.run_queries(qs + ws + fq + fw, label='c16')
     wit = [r for r in res if r.q.expect == 'witness']; res = [r for r in res if r.q.expect != 'witness']
     def replay(ctx, r):
         ce = r.ce()
+        if r.q.name == 'h_uci_roundtrip':
+            exe = ctx.native_bin('uci_replay', [os.path.join(VERIF, 'native', 'uci_replay.cpp')], ['position', 'movegen', 'move_bitboards', 'bithacks', 'types', 'zobrist_hash', 'bitbase', 'endgame'])
+            args = [str(ce.get('ce_side', 0)), str(ce.get('ce_aux', 0)), str(ce.get('ce_aux2', 0)), str(ce.get('ce_mv', 0))]
+            out = ctx.sh([exe] + args, ok=(0, 1))
+            txt = ''.join(chr(ce.get('ce_txt', {}).get(i, 0)) for i in range(min(8, ce.get('ce_txtlen', 0))))
+            path = report.save_replay(ctx, r.q.name, {'harness': r.q.name, 'side': ce.get('ce_side'), 'piece on the from-square': ce.get('ce_aux'), 'square': ce.get('ce_aux2'), 'move': ce.get('ce_mv'), 'text in the model': txt, 'parsed back in the model': ce.get('ce_mv2'),
+                                                      'native_cmd': 'uci_replay ' + ' '.join(args), 'native_output': out.strip().split('\n')})
+            return {'confirmed': 'REPRODUCED' in out and 'NOT-REPRODUCED' not in out, 'key': 'uci-roundtrip', 'path': path,
+                    'text': 'h_uci_roundtrip: %s | model text "%s" | native: %s' % ('; '.join(d for _, d in r.failed[:2]), txt, out.strip().replace('\n', ' / ')[:300])}
+        if r.q.name.startswith('h_fen'):
+            n = ce.get('ce_n', 0); pcs = ['%d:%d' % (ce.get('ce_pc', {}).get(i, 0), ce.get('ce_sq', {}).get(i, 0)) for i in range(n)]
+            exe = ctx.native_bin('fen_replay', [os.path.join(VERIF, 'native', 'fen_replay.cpp')], ['position', 'movegen', 'move_bitboards', 'bithacks', 'types', 'zobrist_hash', 'bitbase', 'endgame'])
+            args = [str(ce.get('ce_side', 0)), str(ce.get('ce_cr', 0)), str(ce.get('ce_ep', 64)), str(ce.get('ce_hm', 0)), str(ce.get('ce_ply', 1))] + pcs
+            out = ctx.sh([exe] + args, ok=(0, 1))
+            path = report.save_replay(ctx, r.q.name, {'harness': r.q.name, 'position': {'pieces(piece:square)': pcs, 'side': ce.get('ce_side'), 'rights': ce.get('ce_cr'), 'ep': ce.get('ce_ep'), 'halfmove': ce.get('ce_hm'), 'ply': ce.get('ce_ply')},
+                                                      'native_cmd': 'fen_replay ' + ' '.join(args), 'native_output': out.strip().split('\n')})
+            return {'confirmed': 'REPRODUCED' in out and 'NOT-REPRODUCED' not in out, 'key': 'fen-roundtrip', 'path': path,
+                    'text': '%s: %s | native: %s' % (r.q.name, '; '.join(d for _, d in r.failed[:2]), out.strip().replace('\n', ' / ')[:400])}
         exe = ctx.native_bin('c16_replay', [os.path.join(VERIF, 'native', 'c16_replay.cpp')], ['types'])
         out = ctx.sh([exe, r.q.name] + [str(ce.get(k, 0)) for k in ('ce_a', 'ce_b', 'ce_c', 'ce_d', 'ce_e')], ok=(0, 1))
         path = report.save_replay(ctx, r.q.name, {'harness': r.q.name, 'inputs': ce, 'native_output': out.strip()})
         return {'confirmed': 'REPRODUCED' in out and 'NOT-REPRODUCED' not in out, 'key': r.q.name, 'path': path, 'text': '%s inputs %s | %s' % (r.q.name, ce, out.strip()[:200])}
     return report.finish(ctx, res, wit, replay=replay,
-        assumptions=['FEN text round-trip (Position(std::string), Position::fen()) is istringstream/ostringstream/std::map code and is NOT covered',
-                     'move text round-trip (Position::uci/parse_uci) is not covered by this check yet'],
+        assumptions=['FEN round trip (h_fen_*): Position::fen() and Position::Position(std::string) as compiled; std::string = (pointer, length), ostringstream/istringstream = a character buffer with blank-separated tokens in which a number is ONE token (decimal formatting/parsing by libstdc++ is outside the claim), std::map<char,Piece> = search in the initializer array the real code builds; HashKey::init stubbed (key equality of equal positions is C04); ply counter odd exactly when White is to move (constructor and do_move keep that)',
+                     'move text round trip (h_uci_roundtrip): Position::uci and Position::parse_uci as compiled on an ARBITRARY board with any move of legal shape (superset of legal moves in legal positions: castling needs the king at home, a non-castling king move covers one square, promotion pieces N/B/R/Q); std::string by the same model; a throw from parse_uci counts as failure'],
         bounds={'fields': 'all (from, to) in 0..63, promotion in {none, N, B, R, Q}, both castling codes; move-info: captured 0..6, rights 0..15, ep 0..64, flag, clock 0..255', 'loops': 'none'})
